@@ -143,6 +143,14 @@ def c10(ctx):
     return [Native("matrix", "c10")]
 
 
+def c11(ctx):
+    return [Native("validators", "c11")]
+
+
+def c12(ctx):
+    return [Native("probes", "c12")]
+
+
 PROPS = {
     "C01": {
         "level": "exploration",
@@ -233,5 +241,22 @@ PROPS = {
         "technique": "runtime acceptance monitor over the full (value class x parser) matrix",
         "stages": c10,
         "floor": {"quick": 50000, "thorough": 200000},
+    },
+    "C11": {
+        "level": "exploration",
+        "level_text": "Validator monitor: the built-in validators are compared with specification formulas over i128 nanoseconds on an exhaustive boundary grid (exp/nbf at now, now+-1ns, now+-leeway, now+-leeway+-1ns, jiff's MIN/MAX; now at the epoch, 2025 and next to both ends of jiff's range; leeway 0/1ns/1s/1h), string validators on absent/equal/prefix/case/empty variants, and tens of thousands of random validator expressions to depth 3 over every combinator, built as Box<dyn Validate>, against recursive conjunction. Verdicts are also pushed through real seal -> parse -> unseal(validator) on all six backends and both purposes: claims must be released iff the validator accepts and the error must be ClaimsError.",
+        "level_note": "Trusted: the formulas (copied from the property statement) and jiff's nanosecond conversion. now+-leeway outside jiff's representable range is excluded as the property states.",
+        "technique": "runtime differential monitor of validator verdicts against specification formulas, incl. through real unseal",
+        "stages": c11,
+        "floor": {"quick": 20000, "thorough": 300000},
+    },
+    "C12": {
+        "level": "fault_enumeration",
+        "level_text": "Invocation probes: a recording Payload type and a recording validator are passed through the real SealedToken::unseal for every corruption class of C02 (all single-bit flips, add/remove/replace, boundary shifts, all truncations, extensions), wrong keys, wrong assertions and too-short bodies on all 12 backend x purpose pairs. Each forged token is unsealed twice with the decoder scripted to succeed and to fail: the probes must stay silent, the error must not be a payload error and must not differ between the two runs. A positive control on the authentic token must record exactly [decode, validate] in that order on the authentic claims.",
+        "level_note": "Trusted: thread-local event recording inside the harness's Payload/Validate implementations. The API-surface clause (footer only via unverified_footer) is not an execution property and is not monitored.",
+        "technique": "runtime invocation probes (recording Payload/Validate) over enumerated token corruptions",
+        "stages": c12,
+        "floor": {"quick": 40000, "thorough": 150000},
+        "required_classes": ["positive-controls"],
     },
 }
